@@ -7,8 +7,8 @@ import (
 )
 
 // GtreeGoroutines returns one signature per live goroutine (other than the caller) that has a frame in
-// package gtree: "<top gtree function> [<wait reason>]".
-func GtreeGoroutines() []string {
+// package gtree: "<top gtree function> [<wait reason>]", keyed by goroutine id.
+func GtreeGoroutines() map[string]string {
 	buf := make([]byte, 1<<20)
 	for {
 		n := runtime.Stack(buf, true)
@@ -18,7 +18,7 @@ func GtreeGoroutines() []string {
 		}
 		buf = make([]byte, 2*len(buf))
 	}
-	var sigs []string
+	sigs := map[string]string{}
 	for i, g := range strings.Split(string(buf), "\n\n") {
 		if i == 0 {
 			continue // the calling goroutine
@@ -48,19 +48,29 @@ func GtreeGoroutines() []string {
 			}
 		}
 		if top != "" {
-			sigs = append(sigs, top+" ["+reason+"]")
+			id := strings.TrimPrefix(head, "goroutine ")
+			if sp := strings.Index(id, " "); sp >= 0 {
+				id = id[:sp]
+			}
+			sigs[id] = top + " [" + reason + "]"
 		}
 	}
 	return sigs
 }
 
-// SettledLeaks waits (up to maxWait) for gtree goroutines to finish and returns those that did not.
-func SettledLeaks(maxWait time.Duration) []string {
+// SettledLeaks waits (up to maxWait) for the gtree goroutines that were not alive `before` to finish
+// and returns the signatures of those that did not.
+func SettledLeaks(before map[string]string, maxWait time.Duration) []string {
 	deadline := time.Now().Add(maxWait)
 	for {
-		s := GtreeGoroutines()
-		if len(s) == 0 || time.Now().After(deadline) {
-			return s
+		var left []string
+		for id, sig := range GtreeGoroutines() {
+			if _, old := before[id]; !old {
+				left = append(left, sig)
+			}
+		}
+		if len(left) == 0 || time.Now().After(deadline) {
+			return left
 		}
 		time.Sleep(2 * time.Millisecond)
 	}
